@@ -79,7 +79,8 @@ def mutator(rng, c, focus, h):
             q = sorted(set(k * c.nfine + rng.randrange(c.nfine) for _ in range(rng.choice([1, 2, 3]))))
             h += ['nvalid v', 'upd %s op=replace pix=%s val=%s' % (n, ','.join(map(str, q)), c.val(rng)),
                   'nvalid v', 'valid v path=list', 'nvalid v path=area']
-    elif r < 0.8:
+    elif r < 0.8 or (c.kind == 'plain' and c.is_flt and c.sentinel in ('0', '1^1', '-9999') and r < 0.93):
+        # (float maps with a reachable sentinel: arithmetic that lands on it changes the valid set)
         h.append(gen.scalar_op_line(rng, c, inplace=True))
     else:
         k = gen.MapCfg('k', 'plain', c.covord, c.spord, dtype=rng.choice(['i2', 'u1', 'i8']), sentinel='0')
